@@ -415,8 +415,13 @@ def _prev_conn(e, compress, attempt):
               'do': [{'op': 'send_text', 'text': u'client says €uro ' * 8},
                      {'op': 'send_binary', 'hex': '00ff' * 40}]}]
     if k == 'request_fail':
-        return {'server': [], 'faults': [{'op': 'sendall', 'k': 0,
-                                          'kind': 'reset'}]}, rules
+        # (half of the time most of the request, the key line included, has
+        # left the machine when the write fails)
+        f = {'op': 'sendall', 'k': 0, 'kind': ['reset', 'timeout'][
+            e['seed'] % 2]}
+        if e['seed'] % 4 < 2:
+            f['partial'] = 150 + e['seed'] % 100
+        return {'server': [], 'faults': [f]}, rules
     if k == 'protocol_error':
         return {'server': hs + [S.send(peer.enc_frame(1, b'ok') +
                                        peer.enc_frame(0xB, b'bad')), end]}, rules
@@ -589,6 +594,32 @@ def execute(case):
             res.bad('C17/%s/escaped_%s' % (tag, which), '%s %s' % t_.escaped)
     a = _normalise(tr_ref, case['compress'])
     b = _normalise(tr, case['compress'])
+    # a new handshake key for every connection: whatever reached the wire
+    # as Sec-WebSocket-Key on an earlier connection of the chain (also in a
+    # request whose write failed half-way) is not used again
+    seen_keys = []
+    for st_ in tr.world.socks:
+        raw = bytes(st_.out_bytes)
+        i = raw.lower().find(b'sec-websocket-key:')
+        while i >= 0:
+            j = raw.find(b'\r\n', i)
+            k_ = raw[i + 18:j if j >= 0 else len(raw)].strip()
+            if len(k_) >= 8:
+                seen_keys.append((st_.index, k_))
+            i = raw.lower().find(b'sec-websocket-key:', i + 18)
+    for n1 in range(len(seen_keys)):
+        for n2 in range(n1 + 1, len(seen_keys)):
+            k1, k2 = seen_keys[n1][1], seen_keys[n2][1]
+            if seen_keys[n1][0] != seen_keys[n2][0] and (
+                    k1 == k2 or (len(k1) < 24 and k2.startswith(k1))):
+                res.bad('C17/%s/handshake_key_reused' % tag,
+                        'connections %d and %d of the chain sent the same '
+                        'Sec-WebSocket-Key %r' % (seen_keys[n1][0],
+                                                  seen_keys[n2][0], k2))
+                break
+        else:
+            continue
+        break
     names_ref = [s[0][0] for s in a[0]]
     names_chain = [s[0][0] for s in b[0]]
     # the fresh object must itself behave as constructed
